@@ -393,7 +393,8 @@ pub fn run(ctx: &mut Ctx) {
     ctx.family("appdata-lengths", n, |ctx, case: &mut Case| {
         let r = &mut case.rng;
         let l = if full {
-            case.idx as usize
+            // every length 0..=16640 (the case count may be a multiple of the domain in the thorough tier)
+            case.idx as usize % 16641
         } else {
             let b = [0usize, 1, 2, 3, 255, 256, 16383, 16384, 16639, 16640];
             if (case.idx as usize) < b.len() {
